@@ -380,8 +380,10 @@ func (f *Frame) execLoopInv(sh *loopShape, spec *LoopSpec, st *State) []Outcome 
 					env := f.specEnvAt(o.St, sh.body.End()-1)
 					env.pre = head
 					goal := env.evalBool(a.E)
+					f.curGroup = clauseGroup(a.Props)
 					f.oblige(o.St, "assert", fmt.Sprintf("%s#loop%d.assert:%d", f.key, sh.ord, i+1), sh.pos, goal, a.Text)
-					o.St.assume(goal)
+					f.curGroup = ""
+					o.St.assume(inGroup(goal, clauseGroup(a.Props)))
 				}
 				for _, ps := range sh.post(o.St) {
 					if cur, ok := ps.store[iterC].(Sc); ok {
